@@ -150,8 +150,17 @@ def run_case(case):
             # the same bytes as a dump file in both text formats
             for fmt in ('bmc', 'pre'):
                 path = os.path.join(d, 'dump_%s.txt' % fmt)
+                text_lines = render(data, fmt, rng.random() < .5)
+                if rng.random() < .5:
+                    # title / comment / blank lines around and between the data lines: exactly the lines that
+                    # MC_HexDump!FileOK shows to contribute no byte under either format (IsComment)
+                    deco = ['', '# x', 'Drawer', 'dump', 'Encl', '---', '0x']
+                    k = rng.randrange(0, len(text_lines) + 1)
+                    text_lines = [rng.choice(deco) for _ in range(rng.randrange(0, 3))] + text_lines[:k] + \
+                        [rng.choice(deco) for _ in range(rng.randrange(0, 2))] + text_lines[k:] + \
+                        [rng.choice(deco) for _ in range(rng.randrange(0, 2))]
                 with open(path, 'w') as f:
-                    f.write('\n'.join(render(data, fmt, rng.random() < .5)) + ('\n' if data else ''))
+                    f.write('\n'.join(text_lines) + ('\n' if text_lines else ''))
                 if parse_dump_file(path, hdr, strf) != lines:
                     rec['file_same'] = False
                 os.remove(path)
